@@ -101,6 +101,7 @@ pub fn run(sc: &Value) -> Value {
                                      "wrong_content": wrong, "differences": diffs.len()}));
             }
             out["versions"] = json!(versions);
+            out["format_problems"] = json!(crate::formatscan::scan(&arch));
             if sc["validate_after"].as_bool().unwrap_or(false) {
                 let mut verrs = Vec::new();
                 let mut vok = true;
